@@ -155,7 +155,7 @@ def run(spec, R):
             wit = {'lang': lang, 'format': fmt, 'kinds': kinds, 'batch': dump[:3000]}
             R.case(stable_hash((fmt, dump)), mixed or has_unary)
             try:
-                text = to_string(copy.deepcopy(sents), format=fmt)
+                text = to_string(copy.deepcopy(sents), format=(fmt + ' ').strip())
             except Exception as e:
                 # which sentence is to blame?
                 culprit = None
